@@ -59,12 +59,21 @@ def check_case(case, ctx):
     for form, desc in case['calls']:
         nviol = sum(ctx._viol_count.values())
         try:
+            _simp.CUR.pop('intended', None)
             if form == 'transform':
-                res = _simp.build_pipe(desc).transform(c)
+                t_ = _simp.build_pipe(desc)
+                _simp.CUR['intended'] = _simp.flat(desc)
+                res = t_.transform(c)
             elif form == 'list':
-                res = Transformer.apply_transformers(c, [_simp.build_pipe(d) for d in desc])
+                ts_ = _simp.flavour(rng, [_simp.build_pipe(d) for d in desc])
+                if not isinstance(ts_, (list, tuple)):
+                    ctx.count('passes_as_one_shot_iterable')
+                _simp.CUR['intended'] = sum((_simp.flat(d) for d in desc), [])
+                res = Transformer.apply_transformers(c, ts_)
             elif form == 'composition':
-                res = Transformer.apply_transformers(c, _simp.build_pipe(desc))
+                t_ = _simp.build_pipe(desc)
+                _simp.CUR['intended'] = _simp.flat(desc)
+                res = Transformer.apply_transformers(c, t_)
             elif form == 'cleanup':
                 res = cleanup(c, use_heavy=desc)
             else:
